@@ -200,13 +200,43 @@ def _call_update(obj, is_manager, cand, res, utilities):
     return obj.update(cand, res, budget_manager_param_dict={"utilities": np.asarray(utilities)})
 
 
-def run(make_obj, is_manager, name, chunks, util_chunks, clf, extra, ids, other):
+def run(make_obj, is_manager, name, chunks, util_chunks, clf, extra, ids, other, prologue=False, twin_keys=None):
     """One history on a fresh object.  extra[s] = list of 'same'/'other' extra
     queries issued before the real query of step s.  Returns (events, steps,
-    obj) where steps are the twin records of the real queries/updates."""
+    obj) where steps are the twin records of the real queries/updates.
+    prologue: the history starts with an update (nothing queried) on the `other` candidates - in the run with
+    extra queries preceded by one query on the fresh object (lazily created parts, e.g. a default budget manager
+    and its seed, must not depend on whether query or update comes first)."""
     obj = make_obj()
     events, steps = [], []
     prev = {}
+    if prologue:
+        try:
+            with warnings.catch_warnings():
+                warnings.simplefilter("ignore")
+                if extra is not None:
+                    r, utl = _call_query(obj, is_manager, other[0], other[1], clf, name)
+                    st = flat_state(obj)
+                    ua = np.asarray(utl)
+                    events.append({"ev": "Query", "len": int(len(other[0])), "cid": 999,
+                                   "res": [int(i) + 1 for i in np.asarray(r)],
+                                   "nutil": int(ua.shape[0]) if ua.ndim == 1 else -1,
+                                   "udig": ids(ab.digest(np.asarray(ua, dtype=float))),
+                                   "dig": ids(restricted_digest(st, st.keys())),
+                                   "digr": ids(restricted_digest(st, prev.keys()))})
+                _call_update(obj, is_manager, other[0].copy(), np.array([], dtype=int), other[1])
+            prev = flat_state(obj)
+            # tdig: the state restricted to the attributes the twin has at this point (the extra query creates
+            # n_features_in_, budget_, ... lazily - that is not a difference of committed state)
+            keys = prev.keys() if twin_keys is None else twin_keys
+            events.append({"ev": "Update", "len": int(len(other[0])), "q": [],
+                           "dig": ids(restricted_digest(prev, prev.keys())),
+                           "tdig": ids(restricted_digest(prev, keys))})
+            steps.append({"cid": 0, "res": [], "udig": 0, "dig": events[-1]["tdig"], "keys": sorted(prev.keys())})
+        except Exception as ex:
+            events.append({"ev": "UpdateRaised", "exc": "%s: %s" % (type(ex).__name__, str(ex)[:200]), "q": [],
+                           "len": int(len(other[0]))})
+            return events, steps, obj
     for s, cand in enumerate(chunks):
         utils = util_chunks[s]
         plan = [("same", s + 1)] * 0
@@ -259,11 +289,16 @@ def run(make_obj, is_manager, name, chunks, util_chunks, clf, extra, ids, other)
     return events, steps, obj
 
 
-def record_pair(make_obj, is_manager, name, budget, chunks, util_chunks, clf, extra, other, tag, concrete):
+def record_pair(make_obj, is_manager, name, budget, chunks, util_chunks, clf, extra, other, tag, concrete,
+                prologue=False):
     """Run twin B (plain) and run A (with extra queries); returns two traces."""
     ids = Ids()
-    ev_b, steps_b, obj_b = run(make_obj, is_manager, name, chunks, util_chunks, clf, None, ids, other)
-    ev_a, steps_a, obj_a = run(make_obj, is_manager, name, chunks, util_chunks, clf, extra, ids, other)
+    ev_b, steps_b, obj_b = run(make_obj, is_manager, name, chunks, util_chunks, clf, None, ids, other, prologue)
+    tkeys = steps_b[0].pop("keys", None) if (prologue and steps_b) else None
+    ev_a, steps_a, obj_a = run(make_obj, is_manager, name, chunks, util_chunks, clf, extra, ids, other, prologue,
+                               twin_keys=tkeys)
+    for st_ in steps_a:
+        st_.pop("keys", None)
     mgr = obj_b if (is_manager or name in BASELINES) else getattr(obj_b, "budget_manager_", None)
     bound, w = bound_of(mgr) if mgr is not None else ("none", 1)
     B = [min(64, int(math.ceil(budget * 64 - 1e-12))), 64]
